@@ -5,11 +5,11 @@ ALL = ["C%02d" % i for i in range(1, 21)]
 CLAIMED = {
  "C16": dict(
    text="TLC model-checks the loaders' index arithmetic (DataLoaders.tla Impl) against the property (Abs: pairing, size, coverage, aggregation) for every size tuple up to the bound, and every loader configuration TLC enumerates is iterated once on the REAL PointsDataLoader / DeepONetDataLoader / DataCondition; TLC validates each recorded pass against Abs.",
-   note="Trusted: TLC, the id encoding of the tensors (cell value reveals (function, location)), float64 identity model for aggregated losses. Bounded: data-set sizes <= 7 (quick) / 9 (thorough), batch sizes <= 8 / 10 and -1.",
+   note="Trusted: TLC, the id encoding of the tensors (cell value reveals (function, location)), float64 identity model for aggregated losses. Bounded: data-set sizes <= 7 (quick) / 9 (thorough), batch sizes <= 8 / 10 and -1. Grid-shaped data (N, 2, 1) for PointsDataLoader.",
    technique="TLA+ Impl=>Abs model checking + TLC trace validation of exhaustively enumerated loader passes", ref="5 C16"),
  "C15": dict(
    text="TLC checks the refinement StaticImpl (the code's counter/cache machine) => StaticAbs (run lengths as the property states them) and the adaptive replacement rule => Abs for all histories up to the bound; TLC-generated call histories (exhaustive short, random long) are replayed on real sampler objects and every recorded history is validated step by step against the Abs machine by TLC; the random variant's keep frequencies are judged by TLC against a binomial acceptance region.",
-   note="Trusted: TLC; identification of point sets by value (fresh random draws are distinct a.s.); z=6 acceptance region for the random variant. Bounded: intervals {1..5,7,inf}, histories <= 24 calls, loss vectors over 0..4 with n <= 5, ratios {0,1/4,1/2,3/4,1}.",
+   note="Trusted: TLC; identification of point sets by value (fresh random draws are distinct a.s.); z=6 acceptance region for the random variant. Bounded: intervals {1..5,7,inf}, histories <= 24 calls, loss vectors over 0..4 with n <= 5, ratios {0,1/4,1/2,3/4,1}. A sibling static sampler made from the same base sampler; the adaptive sampler also with a batch of two parameter rows.",
    technique="TLA+ refinement checking (TLC) + TLC-generated behaviours replayed into the code + TLC trace validation", ref="5 C15"),
  "C13": dict(
    text="UserFun.tla states the calling convention (received = declared parameters bound by name, defaults for absent optional ones, rejection of missing required names, the partial-evaluation law, frame conditions); TLC model-checks the code-shaped wrapper heap (aliasing, deep copy) against it and enumerates every signature up to 4 parameters with every argument subset; each is executed on real UserFunction / DomainUserFunction objects with a recording function and TLC validates every recorded step.",
@@ -17,27 +17,27 @@ CLAIMED = {
    technique="TLA+ model checking of the wrapper heap + exhaustive signature enumeration by TLC + TLC trace validation", ref="5 C13"),
  "C12": dict(
    text="PointsTable.tla defines Points/Space as a table with named column groups (get by row/column selectors, set, join, cat, repeat, unsqueeze, arithmetic, order-sensitive equality, space product/sub-space/slice); TLC checks the algebraic laws the property names over all small tables, enumerates the whole index universe on a one-axis and a two-axis table and generates random operation histories; every step is executed on real Points objects and TLC compares the recorded result (and the operands before/after) with the table semantics.",
-   note="Trusted: TLC; cell ids are distinct integers. Bounded: <= 3 variables of dims 1..2, <= 4 rows (exhaustive index universe), histories <= 10 operations on <= 9 tables, one or two batch axes. Advanced row index + column selection on two batch axes is outside the modelled universe; on one axis its zipped result is the known finding pt_zipped_index.",
+   note="Trusted: TLC; cell ids are distinct integers. Bounded: <= 3 variables of dims 1..2, <= 4 rows (exhaustive index universe), histories <= 10 operations on <= 9 tables, one or two batch axes. Advanced row index + column selection on two batch axes is outside the modelled universe; on one axis its zipped result is the known finding pt_zipped_index. Name slices with steps (reversed, open ends), space algebra on all ordered pairs of a pool where one name has different dimensions.",
    technique="TLA+ table semantics model-checked for its laws + TLC-enumerated index universe and histories + TLC trace validation", ref="5 C12"),
  "C05": dict(
    text="Geometry.tla gives every domain expression its denotation In(e, Q) in exact integer arithmetic on homogeneous lattice points (union=or, cut=and-not, product=conjunction, translate/rotate=inverse image, parameter-dependent shapes evaluated with each point's own parameter row); TLC generates the expressions (all of depth<=1 plus random deeper ones), the real _contains is queried on lattice points and TLC compares every bit that is not within tolerance of the boundary; boundary objects must accept their own boundary samples and reject far points.",
-   note="Trusted: TLC, the builder vh/universe.py (AST -> Domain). Bounded universe: shape data quarter-integers in [-3,3]^d, six rational rotations, parameters in {0,1,2}, depth <= 3 (quick) / 4, at most one non-axis rotation per path; points within 2/256 of the boundary are not judged. ShapelyPolygon / TrimeshPolyhedron are not in the universe.",
+   note="Trusted: TLC, the builder vh/universe.py (AST -> Domain). Bounded universe: shape data quarter-integers in [-3,3]^d, six rational rotations, parameters in {0,1,2}, depth <= 3 (quick) / 4, at most one non-axis rotation per path; points within 2/256 of the boundary are not judged. ShapelyPolygon / TrimeshPolyhedron are not in the universe. Since the third session the universe also holds ShapelyPolygon (crossing-number denotation, holes, both orientations) and TrimeshPolyhedron (tetrahedral decomposition checked against the surface by MeshWF), rotations by a parameter-driven quarter turn (Rotate.from_angles) and rational 3-D rotations; histories on one Points object; own samples of the 256-fold boundary. Known finding bool_bd_shared_piece (C05).",
    technique="TLA+ denotational oracle evaluated by TLC on recorded membership bits (trace validation) of TLC-generated expressions", ref="5 C05"),
  "C01": dict(
    text="Every row returned by the sampling methods of TLC-generated domain expressions (interior and boundary; domain-level random/grid with n and density; RandomUniform/Grid/Gaussian/LHS/adaptive/filtered samplers; parameter batches) is recorded with the parameter row it is paired with and TLC checks it against the denotation of Geometry.tla (closed set resp. topological boundary up to 2/256, filter satisfied); calls run under a watchdog, a hang or an exception on a positive-measure expression is a violation.",
-   note="Trusted: TLC, vh/universe.py. Same bounded universe as C05; positive measure is decided by TLC on a 15x15 lattice (>= 5% of the window), expressions below that are not judged. Whether a call is judgeable is decided by TLC on a lattice over all space variables (enough of the set, and a tenth of it passes the filter). Calls run under a CPU-time watchdog. Known findings: translate_bbox_per_row (three call sites), bool_bd_shared_piece, bool_bd_empty_operand, bool_empty_operand.",
+   note="Trusted: TLC, vh/universe.py. Same bounded universe as C05; positive measure is decided by TLC on a 15x15 lattice (>= 5% of the window), expressions below that are not judged. Whether a call is judgeable is decided by TLC on a lattice over all space variables (enough of the set, and a tenth of it passes the filter). Calls run under a CPU-time watchdog. Known findings: translate_bbox_per_row (three call sites), bool_bd_shared_piece, bool_bd_empty_operand, bool_empty_operand. Universe extended as for C05 (polygons, polyhedra, 3-D / parameter-driven rotations); the number of returned points (n per parameter row) is judged too.",
    technique="TLC trace validation of recorded samples against the TLA+ denotation; expressions generated by TLC", ref="5 C01"),
  "C10": dict(
    text="Geometry.tla computes the exact measure of every expression whose measure the property fixes as (a + b*pi)/den in integer arithmetic (primitives and boundaries for every parameter row and vertex orientation, verified-disjoint unions, verified-contained cuts, independent products, translations, rotations); TLC compares the recorded volume() per row, the user-set override and the number of points returned by density sampling (exact ceil(d*vol) for non-rejection shapes, at most that for grids).",
-   note="Trusted: TLC, vh/universe.py. Tolerances: relative 2^-8 on volumes, pi in [3216/1024, 3217/1024], side lengths by integer sqrt at 1/1024. Disjointness/containment are verified by TLC on a 19x19 lattice, not taken from the flag. Rejection-based counts (triangle, Boolean combinations) are not judged.",
+   note="Trusted: TLC, vh/universe.py. Tolerances: relative 2^-8 on volumes, pi in [3216/1024, 3217/1024], side lengths by integer sqrt at 1/1024. Disjointness/containment are verified by TLC on a 19x19 lattice, not taken from the flag. Rejection-based counts (triangle, Boolean combinations) are not judged. Polygons / polyhedra and their boundaries (shoelace, tetrahedra, edge lengths, triangle areas), user volume given as a tensor through a history of density samplings.",
    technique="exact rational+pi measure in TLA+, TLC trace validation of recorded volumes and counts", ref="5 C10"),
  "C18": dict(
    text="For every TLC-generated expression and batch of parameter rows the recorded bounding_box (outward rounded) must contain every lattice point of the set Geometry.tla denotes at each row, be tight (equal to the exact box) for primitives at a single row, have the documented flat shape, and the NormalizationLayer built from it must map the domain's lattice points into [-1,1]^d; all judged by TLC.",
-   note="Trusted: TLC, vh/universe.py. Enclosure judged on a 19x19(x5) lattice with 3/256 tolerance; boundaries are judged against the closed domain they bound; Point domains (measure zero, padded box) are not judged. Known findings: translate_bbox_per_row (shape pinned by an existing test), dep_product_box_estimate (documented random estimate of dependent products).",
+   note="Trusted: TLC, vh/universe.py. Enclosure judged on a 19x19(x5) lattice with 3/256 tolerance; boundaries are judged against the closed domain they bound; Point domains (measure zero, padded box) are not judged. Known findings: translate_bbox_per_row (shape pinned by an existing test), dep_product_box_estimate (documented random estimate of dependent products). Polygons, polyhedra, 3-D rotations (stratified by matrix); the normalization layer is also fed with the variables in the opposite order.",
    technique="TLC trace validation of recorded boxes against the TLA+ denotation (enclosure, tightness, normalization)", ref="5 C18"),
  "C17": dict(
    text="For every parameter-dependent expression TLC generates and every non-empty subset of its free variables, D(**values) is built on the real domain; TLC checks that its membership bits equal the denotation of the ORIGINAL expression at (values + each point's remaining parameter row), that volume and bounding box agree with the original evaluated at the joint parameters, that samples lie in the denoted set, that necessary_variables equals FreeVars (before) and FreeVars minus the bound names (after), and that the original is unchanged. Geometry.tla additionally defines PE(e,b) and FreeVars and TLC checks In(PE(e,b)) = In(e, +b) on the model.",
-   note="Trusted: TLC, vh/universe.py. Same bounded universe as C05; bindings t,k in {0,1,2}. Volume/box agreement is between two recordings of the real code. Dependent products use documented random estimates for volume/box and are compared on membership, samples and necessary_variables only. Known finding: single_bd_point_side (pinned by an existing test).",
+   note="Trusted: TLC, vh/universe.py. Same bounded universe as C05; bindings t,k in {0,1,2}. Volume/box agreement is between two recordings of the real code. Dependent products use documented random estimates for volume/box and are compared on membership, samples and necessary_variables only. Known finding: single_bd_point_side (pinned by an existing test). PlotSampler and AnimationSampler (plot_samplers.py) on every fully / all-but-one bound expression; user volume given as a function of a bound variable on Boolean combinations.",
    technique="TLC trace validation against the TLA+ denotation + TLC model check of the substitution law PE", ref="5 C17"),
  "C02": dict(
    text="Samplers.tla states the row bookkeeping rules (n rows per parameter row, pairing in order, product = first factor sampled with the rows of the second as parameters, sum = concatenation, append = column stack, static = cached, len = rows of a parameter-free call) as a recursive checker over decoded tables; TLC model-checks the code-shaped construction (repeat/repeat_interleave, evaluation order) against it for every AST, enumerates all sampler compositions up to depth 2 with 0/1/3 parameter rows, and validates the tables the real samplers return.",
@@ -45,24 +45,24 @@ CLAIMED = {
    technique="TLA+ Impl=>Abs model checking of the table construction + exhaustive AST enumeration by TLC + TLC trace validation", ref="5 C02"),
  "C06": dict(
    text="For boundaries of all primitives (slanted, clockwise, parameter-dependent, 1-D..3-D) and of TLC-generated nested unions/cuts/intersections, normal() is recorded at the points of the boundary's own random and grid samplers; TLC checks on the exact denotation that each normal is finite, of unit length and outward (a step along it leaves the set, a step against it enters), independently of how the library computes normals.",
-   note="Trusted: TLC, vh/universe.py. Steps of 8/4/2 fine units (1/256); samples within 16/256 of a second primitive's boundary or at a corner of the primitive itself (ring test) are skipped and counted; normals of translated/rotated boundaries are not part of the API (no normal method).",
+   note="Trusted: TLC, vh/universe.py. Steps of 8/4/2 fine units (1/256); samples within 16/256 of a second primitive's boundary or at a corner of the primitive itself (ring test) are skipped and counted; normals of translated/rotated boundaries are not part of the API (no normal method). Polygon outlines (grids that hit vertices and prolongations of sides), polyhedra incl. an inside-out and a two-body mesh (3-D flatness test skips edges / vertices), unions / cuts with declared flags.",
    technique="TLC trace validation of recorded normals against the TLA+ denotation (outward step test)", ref="5 C06"),
  "C11": dict(
    level="model_checking",
    text="SamplingLaws.tla turns each named law into an acceptance region on integer counts evaluated by TLC: uniform = binomial region (z=6) around cell masses that TLC computes from the denotation (16x16 sub-lattice per unit box, explicit slack for cut boxes; exact length shares for polygon edges, quadrants for circles), grid = every box's share within a discretisation bound, Gaussian = cell probabilities from a Phi table on boxes, Latin hypercube = slab indices form a permutation on every axis. TLC picks law x expression x partition; the real samplers draw 400..16384 points per run.",
-   note="Statistical decision: z=6 (false alarms < 1e-8 per cell); biases below a few percent of a cell mass are invisible at these N (stated in DESIGN 5 C11/9). Trusted: TLC, box binning of the driver (a quantisation), vh/universe.py.",
+   note="Statistical decision: z=6 (false alarms < 1e-8 per cell); biases below a few percent of a cell mass are invisible at these N (stated in DESIGN 5 C11/9). Trusted: TLC, box binning of the driver (a quantisation), vh/universe.py. Polygons (interior, density, grid, boundary by edge length), accumulated small grids on thin shapes, marginal law of dependent products (history and two parameter rows).",
    technique="TLC-evaluated acceptance regions (reference measure from the TLA+ denotation) on recorded sample counts", ref="5 C11"),
  "C03": dict(
    text="Poly.tla defines grad, laplacian, div, jac, rot, partial, normal_derivative, convective, sym_grad and matrix_div by term rewriting on polynomials over named input groups (incl. variable-group order, column offsets, mixed terms); TLC enumerates the programs, the real operators are applied to torch programs built from the same terms, and TLC compares every recorded row exactly, requires batch = single-row results, and zeros (not errors) for programs constant or linear in a listed variable.",
-   note="Trusted: TLC, the program builder of the driver. Universe: polynomial programs of degree <= 3 over x(2), t(1), k(1), y(3) with integer rows (exact in float32/float64); transcendental programs are outside.",
+   note="Trusted: TLC, the program builder of the driver. Universe: polynomial programs of degree <= 3 over x(2), t(1), k(1), y(3) with integer rows (exact in float32/float64); transcendental programs are outside. Batches with two leading axes for the operators that accept them; divergences / Jacobians / matrix divergences over three variable groups.",
    technique="term-rewriting calculus in TLA+, exhaustive case enumeration by TLC, TLC trace validation", ref="5 C03"),
  "C08": dict(
    text="Models.tla states what 'row-wise function of named variables' means on observations (named input row -> output row): equal named content => equal output across variable orders, row orders, batch compositions and batch-axis arrangements; missing variables rejected; derived input/output spaces; Sequential = composition and Parallel = join of the observed parts. TLC model-checks closure of these laws under composition, enumerates 36 model ASTs with all variable permutations, and validates the observations recorded from real (randomly initialised) models.",
-   note="Trusted: TLC; fixed point 2^-12 with tolerance 8 units. Bounded: leaves FCN/Harmonic/Polynomial/QRES/DeepRitz/Normalization with <= 3 input variables, depth <= 3, batches of <= 6 rows from a pool of 6, one or two batch axes.",
+   note="Trusted: TLC; fixed point 2^-12 with tolerance 8 units. Bounded: leaves FCN/Harmonic/Polynomial/QRES/DeepRitz/Normalization with <= 3 input variables, depth <= 3, batches of <= 6 rows from a pool of 6, one or two batch axes. FCNs with the library's own activations (relu^n with different n, adaptive, sinus); outputs re-observed after unrelated models were constructed and evaluated.",
    technique="TLA+ observation laws (model-checked for closure) + exhaustive presentation enumeration by TLC + TLC trace validation", ref="5 C08"),
  "C09": dict(
    text="DeepONet.tla states the contraction law Out[i][j][c] = sum_k B[i][c][k] T[j][c][k] on OBSERVED branch/trunk features, functional consistency of the features across batch compositions and branch-input forms, the fix_input history, and fast == plain (outputs, first and second input derivatives, parameter gradients). Integer networks make every quantity an exact integer; TLC enumerates 48 configurations x 7 batches and decides every recorded trace.",
-   note="Trusted: TLC; integer weights -2..2 with Identity/Square activations in float64 (exact). Bounded: output dim <= 2, <= 3 neurons per component, hidden <= (3,2), 1-3 functions x 1-3 locations. Branch input as tensor, Points, callable, FunctionSet and sum of FunctionSets; activation lists; parameter gradients of derivative losses; same-object history without gradient tracking. The training-time function-set machine is checked in C04/C14 (CondExt.tla).",
+   note="Trusted: TLC; integer weights -2..2 with Identity/Square activations in float64 (exact). Bounded: output dim <= 2, <= 3 neurons per component, hidden <= (3,2), 1-3 functions x 1-3 locations. Branch input as tensor, Points, callable, FunctionSet and sum of FunctionSets; activation lists; parameter gradients of derivative losses; same-object history without gradient tracking. The training-time function-set machine is checked in C04/C14 (CondExt.tla). Derivatives w.r.t. trunk points repeated per function; one FunctionSet object shared by two networks with different discretisation points.",
    technique="TLA+ laws on observed integer features + TLC trace validation; configurations enumerated by TLC", ref="5 C09"),
  "C20": dict(
    text="Fourier.tla defines circular shifts and grid refinement as index maps on recorded fields and the laws layer(Shift(u,s)) = Shift(layer(u),s), coarse/fine agreement at shared nodes for band-limited input, and input immutability; MC_Fourier model-checks that the layer's mode padding/truncation bookkeeping is a diagonal frequency map for all spectrum lengths and mode counts. TLC enumerates 1-D and 2-D layer / FNO configurations; real layers run on random fields and every recorded field pair is decided by TLC in fixed point.",
@@ -70,20 +70,20 @@ CLAIMED = {
    technique="TLA+ index-map laws on recorded fixed-point fields (TLC trace validation) + TLC model check of the mode bookkeeping", ref="5 C20"),
  "C04": dict(
    text="Conditions.tla states, in an exact integer universe (affine integer models, integer sample points, affine data functions), what the residual must receive by name row by row (coordinates, model outputs, parameter, data functions at the same rows, left/right values for periodic conditions) and the documented reduction (mean of squared residual summed over components / plain mean). TLC enumerates 624 single-condition scenarios over kinds, residual families, space / model / signature orders, static or not, n; real conditions are built with recording residuals and TLC validates the recorded arguments and the loss (as an exact rational) after every evaluation.",
-   note="Trusted: TLC; recording residual functions generated from the scenario; float64 affine models. Covered kinds: PINN, mean/Deep-Ritz, periodic (Conditions.tla) and PIDeepONet, DeepONet data, integro, Deep-Ritz, parameter conditions (CondExt.tla, integer DeepONets whose output table is observed by a direct call). Data-loader aggregation is covered in C16; HPM and variational conditions are not driven.",
+   note="Trusted: TLC; recording residual functions generated from the scenario; float64 affine models. Covered kinds: PINN, mean/Deep-Ritz, periodic (Conditions.tla) and PIDeepONet, DeepONet data, integro, Deep-Ritz, parameter conditions (CondExt.tla, integer DeepONets whose output table is observed by a direct call). Data-loader aggregation is covered in C16; HPM and variational conditions are not driven. Integro residuals with derivatives under the integral; x-only conditions using data functions with default arguments.",
    technique="TLA+ evaluation semantics in an exact integer universe + TLC trace validation of exhaustively enumerated scenarios", ref="5 C04"),
  "C14": dict(
    text="MC_Cond model-checks the dictionary handling (copy vs in-place) against isolation for all construct/evaluate interleavings of 3 conditions; TLC generates histories of constructing and evaluating up to three real conditions that share user dictionaries (static and non-static samplers, periodic left/right data) and the trace monitor checks after every step that each condition received its data functions on ITS OWN points, that the user dictionaries still hold the user's function objects, and that static conditions repeat their loss.",
-   note="Trusted: TLC; as C04. Histories of 7 operations over 14 candidate conditions sharing 2 dictionaries, 3 sampler objects (static / non-static / resampling) and a model object, with the train-start event; plus histories of 6 DeepONet conditions sharing 2 networks and 3 function sets under the Solver's iteration numbers (MC_FuncSet model-checks the design; -simulate, 400+250 quick / 5000+4000 thorough).",
+   note="Trusted: TLC; as C04. Histories of 7 operations over 14 candidate conditions sharing 2 dictionaries, 3 sampler objects (static / non-static / resampling) and a model object, with the train-start event; plus histories of 6 DeepONet conditions sharing 2 networks and 3 function sets under the Solver's iteration numbers (MC_FuncSet model-checks the design; -simulate, 400+250 quick / 5000+4000 thorough). 17 candidate conditions over 3 dictionaries (two hold user-wrapped functions; f(x, t=0) defaults; conditions that sample x only); a data function given as ONE shared table to integro / Deep-Ritz conditions.",
    technique="TLA+ model checking of shared-object interference + TLC-generated histories replayed into the code + stepwise TLC trace validation", ref="5 C14"),
  "C07": dict(
    text="Training.tla is the reference optimisation loop in exact rational arithmetic (weighted sum of condition losses, SGD with momentum on every learnable incl. inverse parameters and ascending adaptive point weights, StepLR with step frequency, validation as a stutter on learnable state). TLC model-checks the loop's invariants, enumerates configurations whose reference trajectory fits the 32-bit budget, and the trace monitor steps the log of real Solver + Trainer runs (which condition with which iteration index; every learnable and the learning rate after each batch and around validation) against the reference, bit for bit.",
-   note="Trusted: TLC; float64 affine model and dyadic hyper-parameters so every learnable is an exact rational; Fraction.limit_denominator(2^24) in the driver. Bounded: N = 3 (quick) / 4 steps, <= 3 training conditions, SGD(+momentum)/StepLR only (Adam/LBFGS states are not exactly representable).",
+   note="Trusted: TLC; float64 affine model and dyadic hyper-parameters so every learnable is an exact rational; Fraction.limit_denominator(2^24) in the driver. Bounded: N = 3 (quick) / 4 steps, <= 3 training conditions, SGD(+momentum)/StepLR only (Adam/LBFGS states are not exactly representable). Also DataCondition in mini-batch mode (own and shared loader for validation), weights set after the Solver exists, eval() between two fits; rational budget 2^14.",
    technique="TLA+ reference loop in rational arithmetic + stepwise TLC trace validation of real training runs", ref="5 C07"),
  "C19": dict(
    level="fault_enumeration",
    text="Every interruption step k < N at which TrainerStateCheckpoint writes a file is enumerated by TLC together with the check interval and the C07 configuration (momentum and schedulers, inverse parameters, adaptive weights): the interrupted run's objects are discarded, fresh objects resume from the file and train to N, and TLC compares learnables, learning rate and momentum buffers with the reference loop of Training.tla after N steps (and with the uninterrupted real run); the files of WeightSaveCallback are loaded into freshly built models and compared with the reference initial / final / checked-step weights.",
-   note="Trusted: TLC, pytorch-lightning's resume path as installed; exact rationals as in C07. Bounded: N = 4, interval in {1,2}, all k in 1..3 with (k-1) mod interval = 0; weights_only = False.",
+   note="Trusted: TLC, pytorch-lightning's resume path as installed; exact rationals as in C07. Bounded: N = 4, interval in {1,2}, all k in 1..3 with (k-1) mod interval = 0; weights_only = False. One OptimizerSetting object may be shared by the Solvers of all three runs; the resumed run carries its own weight-saving callback whose files are judged. LBFGS-only effects (closure evaluated several times per step) are outside the universe.",
    technique="crash-point enumeration by TLC + TLA+ rational reference loop + TLC trace validation of resumed real runs", ref="5 C19"),
 }
 PENDING_REASON = "check not built yet in this round (design in DESIGN.md section 5); not claimed"
